@@ -139,15 +139,15 @@ def parse_bp(path, pops):
 # with more than 6 characters simgenotype writes a file that haptools' own breakpoint reader does not accept - the
 # last clause of the property fails.  Witness: corpus/C02/bptext_long_labels.json; Coq: C02_long_label_mangled; the
 # theorems C02_reader_accepts / C02_run_file_accepted carry the hypothesis "labels have at most 6 characters".
-# False (default) = the tree as it is: for a model that names a population with more than 6 characters what
-#   Breakpoints.read does with the file is compared with the reader's model only (agree), not judged (holds); the
-#   karyogram and every other clause are judged as for any model.
-# True = the tree with fixes/C02_label_width.patch: validate_params refuses such a model up front (the configuration
-#   is then outside the property's "valid models" and not judged), and whatever simgenotype writes must be read back
-#   by Breakpoints.read in full.  On the unrepaired tree the switch makes ./check report
-#   VIOLATION property=C02 ... "bptext haptools reader/karyogram does not accept the file (ValueError: The population label ...".
+# The defect is recorded, not repaired (known_findings.json, id C02-label-width: the proposed repair
+# fixes/C02_label_width.patch makes validate_params refuse such models, which removes behaviour; widening the reader's
+# fixed-width field is not a small change).  True (default) = the demand is made: whatever simgenotype writes must be
+#   read back by Breakpoints.read in full; on the current tree the corpus witness fails it on every run and is printed as
+#   KNOWN-FINDING: property=C02 ... (signature "... a population label of more than 6 characters is refused ...").
+# False = for a model that names a population with more than 6 characters what Breakpoints.read does with the file is
+#   compared with the reader's model only (agree), not judged (holds).
 # Also settable with HV_C02_STRICT_LABEL_WIDTH=1.
-STRICT_LABEL_WIDTH = os.environ.get("HV_C02_STRICT_LABEL_WIDTH", "0") == "1"
+STRICT_LABEL_WIDTH = os.environ.get("HV_C02_STRICT_LABEL_WIDTH", "1") == "1"
 
 
 def judge_read(cfg):
